@@ -67,7 +67,7 @@ pub fn drain_rx(rx: &mut Receiver<String>) -> Vec<String> {
     v
 }
 
-fn state_letter(s: ValueStatus) -> &'static str {
+pub fn state_letter(s: ValueStatus) -> &'static str {
     match s {
         ValueStatus::Ok => "O",
         ValueStatus::Deleted => "D",
